@@ -152,6 +152,7 @@ def strategy(tier: str):
         # the listener has no update_service method (optional; the library only warns)
         'no_update': st.sampled_from([False, False, False, False, True]),
         'api': st.sampled_from(['listener', 'listener', 'handlers']),
+        'one_shot_handler': st.booleans(),
     })
 
 
@@ -260,8 +261,20 @@ class Exec:
                         getattr(_l, {'Added': 'add_service', 'Removed': 'remove_service', 'Updated': 'update_service'}[state_change.name])(
                             zeroconf, service_type, name)
 
-                    br = AsyncServiceBrowser(zc, types if len(types) > 1 else types[0], handlers=[on_change])
+                    holder: Dict[str, Any] = {}
+
+                    def one_shot(zeroconf: Any, service_type: str, name: str, state_change: Any) -> None:
+                        # "wake me at the first event": a second handler, listed first, that unregisters itself from its callback
+                        if 'br' in holder and not holder.get('gone'):      # (callbacks fired from the constructor come too early)
+                            holder['gone'] = True
+                            holder['br'].service_state_changed.unregister_handler(one_shot)
+
+                    hs = [one_shot, on_change] if self.case.get('one_shot_handler') else [on_change]
+                    br = AsyncServiceBrowser(zc, types if len(types) > 1 else types[0], handlers=hs)
+                    holder['br'] = br
                     self.stats['browser_with_handlers'] = self.stats.get('browser_with_handlers', 0) + 1
+                    if len(hs) > 1:
+                        self.stats['one_shot_handler_ahead_of_the_tracking_one'] = 1
                 else:
                     br = AsyncServiceBrowser(zc, types if len(types) > 1 else types[0], listener=lst)
             self.browsers.append((br, lst, types))
